@@ -14,9 +14,9 @@ LEVEL = 'exploration'
 RULE = ('Hypothesis rule-based state machine. State: a pool of trees (fixed seeds covering every array-elision form, '
         'comments, obfuscatable scopes, plus G1 programs added by a rule, some parsed with comment capture, every other one carrying a sourcepath) and a pool '
         'of printer objects (pretty with drawn indent, all 16 minify flag combinations, Unparser(rules=(obfuscate, '
-        'indent)), default Unparser, and Unparsers that share rule objects: one minify / indent / obfuscate rule configuring several of them, also under instance-level layout handlers; the model printer of such a configuration is built from private rule objects). Rules: print_full(printer, tree); print_abandon(printer, tree, k) (k fragments, '
+        'indent)), default Unparser, and Unparsers that share rule objects: one minify / indent / obfuscate rule configuring several of them, also under instance-level layout handlers; an Unparser given token handler, layout handlers and a pre-walk hook as constructor arguments; the model printer of such a configuration is built from private rule objects). Rules: print_full(printer, tree); print_abandon(printer, tree, k) (k fragments, '
         'then the generator is closed or dropped); print_raising(printer) (a tree holding a node kind without '
-        'definition); extract(tree) (ast_to_dict, the value-yielding unparser); new_printer; new_tree; shortcut(text, kind). Model: the fragment list a *fresh* printer of the '
+        'definition); extract(tree) (ast_to_dict, the value-yielding unparser); new_printer; new_tree; shortcut(text, kind) (kinds include every option passed by keyword with a false, empty, short or long value). Model: the fragment list a *fresh* printer of the '
         'same configuration produced for the tree the first time the pair was seen (for the fixed seed trees: produced in a separate fresh interpreter, so that process-wide state cannot reach the model); every later full print must '
         'equal it (text, line, column, name, source). Invariant after every step: the deep fingerprint of every '
         'pooled tree (all attributes incl. positions, token tables, comments) and of the shared rule tables / '
@@ -46,7 +46,7 @@ SEED_SOURCES = [
 ]
 
 CONFIGS = [('pretty', '  '), ('pretty', '\t'), ('pretty', ''), ('default',), ('shared_min',), ('shared_min_indent',),
-           ('shared_indent',), ('shared_indent_obf',), ('shared_min_layout',)] + \
+           ('shared_indent',), ('shared_indent_obf',), ('shared_min_layout',), ('instance_args',)] + \
           [('min', o, g, s, d) for o in (False, True) for g in (False, True) for s in (False, True)
            for d in (False, True)] + \
           [('obf_indent', g, s) for g in (False, True) for s in (False, True)]
@@ -73,10 +73,28 @@ def shared_rule(name, fresh=False):
     return _SHARED_RULES[name]
 
 
+def last_statement_hook(dispatcher, node):
+    """a pre-walk hook that changes what is printed without touching the tree: of a program with several
+    statements only the last one is walked"""
+    from calmjs.parse.asttypes import Program
+    if isinstance(node, Program):
+        kids = node.children()
+        if len(kids) > 1:
+            return kids[-1]
+    return node
+
+
 def make_printer(cfg, fresh=False):
     from calmjs.parse.unparsers.es5 import pretty_printer, minify_printer, Unparser
     from calmjs.parse import rules
     from calmjs.parse.lexers.es5 import Lexer
+    if cfg[0] == 'instance_args':
+        # every optional constructor argument given on the instance rather than through a rule
+        from calmjs.parse.ruletypes import Space
+        from calmjs.parse.handlers.core import layout_handler_space_imply, token_handler_str_default
+        return Unparser(rules=(rules.indent('\t'),), token_handler=token_handler_str_default,
+                        layout_handlers={Space: layout_handler_space_imply},
+                        prewalk_hooks=(last_statement_hook,))
     if cfg[0] == 'shared_min':
         return Unparser(rules=(shared_rule('min', fresh),))
     if cfg[0] == 'shared_min_indent':
@@ -337,6 +355,19 @@ class World(object):
         elif kind == 'pretty_indent':
             a = es5.pretty_print(src, indent_str='\t', with_comments=wc)
             b = pretty_print(t, indent_str='\t')
+        elif kind in ('pretty_indent_empty', 'pretty_indent_one', 'pretty_indent_wide'):
+            # option values that are false, short or long: they are values, not "unset"
+            ind = {'pretty_indent_empty': '', 'pretty_indent_one': ' ', 'pretty_indent_wide': '        '}[kind]
+            a = es5.pretty_print(src, indent_str=ind, with_comments=wc)
+            b = pretty_print(t, indent_str=ind)
+        elif kind == 'minify_all_false':
+            a = es5.minify_print(src, obfuscate=False, obfuscate_globals=False, shadow_funcname=False,
+                                 drop_semi=False, with_comments=wc)
+            b = minify_print(t, obfuscate=False, obfuscate_globals=False, shadow_funcname=False, drop_semi=False)
+        elif kind == 'minify_all_true':
+            a = es5.minify_print(src, obfuscate=True, obfuscate_globals=True, shadow_funcname=True,
+                                 drop_semi=True, with_comments=wc)
+            b = minify_print(t, obfuscate=True, obfuscate_globals=True, shadow_funcname=True, drop_semi=True)
         elif kind == 'minify':
             a = es5.minify_print(src, with_comments=wc) if wc else es5.minify_print(src)
             b = minify_print(t)
@@ -489,7 +520,9 @@ class Machine(RuleBasedStateMachine):
         self._do(self.w.extract, ti, fold)
 
     @rule(src=SHORT_SRC, kind=st.sampled_from(['str', 'pretty', 'pretty_indent', 'minify', 'minify_flags',
-                                               'minify_shadow', 'parse']), wc=st.booleans())
+                                               'minify_shadow', 'parse', 'pretty_indent_empty', 'pretty_indent_one',
+                                               'pretty_indent_wide', 'minify_all_false', 'minify_all_true']),
+          wc=st.booleans())
     def shortcut(self, src, kind, wc):
         self._do(self.w.shortcut, src, kind, wc)
 
